@@ -74,7 +74,11 @@ def one(ctx, name, cfg, kind, data, seq, do_model=True):
         if not c.startswith(head) or not c.endswith(need_tail):
             what = "the protected prefix" if not c.startswith(head) else (
                 "the byte before the DDEND line" if c.endswith(tail) else "the protected suffix")
-            ctx.fail("frame-modified", f"{name}/{kind}: a file presented to the test (or the final file) changed {what}: {c!r} "
+            # recorded finding: the re-load after a brace collapse looks for the marker lines again; when the DDEND line starts with
+            # UTF-8 continuation bytes and deletions left a lead byte in front of it, the bytes join into a line terminator
+            key = "collapse-reload-boundary" if (name == "minimize-collapse-brace" and need_tail[:1] and 0x80 <= need_tail[0] < 0xC0) \
+                else "frame-modified"
+            ctx.fail(key, f"{name}/{kind}: a file presented to the test (or the final file) changed {what}: {c!r} "
                      f"(prefix {head!r}, suffix {need_tail!r})", case)
             break
     ctx.bump(f"{name}")
@@ -97,12 +101,19 @@ def sweep(ctx, reps, thorough, do_model=True):
                     one(ctx, name, cfg, kind, data, seq, do_model)
 
 
+def known_finding_cases(ctx):
+    data = b"// DDBEGIN\ng{\nZ;\n}x\xe2}y\n\x80\xa8 DDEND\ntail\n"
+    seq = [c == "1" for c in "000001010010111"] + [False] * 40
+    one(ctx, "minimize-collapse-brace", {}, "symbol", data, seq, do_model=True)
+
+
 def search(ctx):
     sweep(ctx, 3, True, do_model=False)
 
 
 def run(ctx) -> int:
     proof = common.proof_stage(ctx.pid)
+    known_finding_cases(ctx)
     sweep(ctx, 3 if ctx.thorough else 2, ctx.thorough)
     return common.decide(ctx, proof, RULE, search=search,
                          assumptions=["the two rewriting strategies and the experimental move touch only parts/reducible: monitored on the real code, not proved"])
